@@ -1334,6 +1334,8 @@ func (m *scanModel) callEffect(cfg smConfig, f *smConfig, p *Path, t *smTrans, e
 		}
 	}
 	if writes {
+		// the line argument last, whatever its position in the signature
+		sort.SliceStable(toks, func(i, j int) bool { return toks[i] != "L" && toks[j] == "L" })
 		eff[name+"("+strings.Join(toks, ",")+")"] = true
 	}
 }
